@@ -17,6 +17,7 @@ import (
 type RunSpec struct {
 	Fn  []string `json:"fn"`  // function keys ("*" = all repo functions); exact match unless it ends with "*"
 	Beh string   `json:"beh"` // behaviour
+	As  string   `json:"as"`  // verify the clauses tagged with this property instead (a theorem the property composes with)
 }
 
 type PropSpec struct {
@@ -144,6 +145,9 @@ func runCheck(args []string, repo, specs, tier string, jobs int, verbose bool) i
 		w.implicitNothing = ps.ImplicitModifiesNothing
 		for _, run := range ps.Runs {
 			pass := Pass{Prop: prop, Beh: run.Beh}
+			if run.As != "" {
+				pass.Prop = run.As
+			}
 			matched := 0
 			for _, fn := range w.funcList {
 				if !matchFn(run.Fn, funcKey(fn)) {
@@ -155,6 +159,10 @@ func runCheck(args []string, repo, specs, tier string, jobs int, verbose bool) i
 				for _, o := range fv.obls {
 					if run.Beh != "" {
 						o.Name = o.Name + "[" + run.Beh + "]"
+					}
+					if run.As != "" {
+						o.Name = o.Name + "{" + run.As + "}"
+						o.As = run.As
 					}
 				}
 				all = append(all, fv.obls...)
@@ -218,7 +226,17 @@ func runCheck(args []string, repo, specs, tier string, jobs int, verbose bool) i
 		}
 	}
 
-	results := Discharge(all, work, timeout, thorough, jobs, func(o *Obligation) bool { return known.match(prop, o.Fn+" :: "+o.Name) != nil })
+	matchKnown := func(o *Obligation) *KnownFinding {
+		if kf := known.match(prop, o.Fn+" :: "+o.Name); kf != nil {
+			return kf
+		}
+		if o.As != "" {
+			// an obligation of a theorem this property composes with: its findings are recorded under that property
+			return known.match(o.As, o.Fn+" :: "+strings.TrimSuffix(o.Name, "{"+o.As+"}"))
+		}
+		return nil
+	}
+	results := Discharge(all, work, timeout, thorough, jobs, func(o *Obligation) bool { return matchKnown(o) != nil })
 
 	// bounded stand-ins (never counted as proved)
 	var boundedReports []map[string]interface{}
@@ -255,7 +273,7 @@ func runCheck(args []string, repo, specs, tier string, jobs int, verbose bool) i
 		}
 	}
 
-	nDis, nKnown, nViol := 0, 0, 0
+	nDis, nKnown, nViol, nDelegated := 0, 0, 0, 0
 	bySolver := map[string]int{}
 	solverSecs := 0.0
 	var samples []interface{}
@@ -280,9 +298,16 @@ func runCheck(args []string, repo, specs, tier string, jobs int, verbose bool) i
 			}
 			continue
 		}
-		if kf := known.match(prop, full); kf != nil {
+		if kf := matchKnown(r.O); kf != nil {
 			nKnown++
 			knownHit = append(knownHit, full)
+			if kf.Property != prop {
+				// a finding of a theorem this property composes with, recorded (and reported) under that property
+				nKnown--
+				nDelegated++
+				fmt.Printf("NOTE: %s is not discharged; it is the known finding of %s recorded in known_findings.json (reported by ./check %s)\n", full, kf.Property, kf.Property)
+				continue
+			}
 			fmt.Printf("KNOWN-FINDING: property=%s %s — %s (input: %s)\n", prop, full, kf.What, kf.Input)
 			continue
 		}
@@ -333,7 +358,8 @@ func runCheck(args []string, repo, specs, tier string, jobs int, verbose bool) i
 		"seed":        seed,
 		"level":       "proof",
 		"coverage": map[string]interface{}{
-			"obligations":               total - nKnown,
+			"obligations": total - nKnown - nDelegated,
+			"undischarged_recorded_under_other_property": nDelegated,
 			"discharged":                nDis,
 			"known_finding_obligations": nKnown,
 			"known_findings_hit":        append(knownHit, boundedKnown...),
